@@ -329,6 +329,10 @@ def run(prog, rep):
     cardinality_validation_rule(prog, rep)
     from .c19 import reset1_rule
     reset1_rule(prog, rep, "RESET-1")
+    from ..report import import_verdicts
+    import_verdicts(prog, rep, "C14", ("TRAV-1", "TRAV-2", "TRAV-3", "TRAV-4"), "WALK-I",
+                    "run_validation reaches the Sections and Properties of a document through itersections / iterproperties: an object the "
+                    "traversal skips is never validated")
     rep.assume("the documented rules table (odmlsa/tables.py VALIDATION_RULES) transcribes the validation docstrings")
 
 
@@ -495,6 +499,9 @@ def acc1_rule(prog, rep, S):
                           where(f, c), witness="duplicate ids across siblings / levels are missed")
     du = vmod.functions.get("document_unique_ids")
     cs = [c for c in calls_in(du.node) if call_name(c) == "section_unique_ids"]
-    rep.check(len(cs) == 1 and len(cs[0].args) == 2 and unparse(cs[0].args[0]) == du.params[0] and isinstance(cs[0].args[1], ast.Name), "ACC-1",
+    def _seed_map(e):
+        # the map handed to the traversal: a local, or a dict display that already holds the document's id
+        return isinstance(e, ast.Name) or (isinstance(e, ast.Dict) and any(k is not None and unparse(k) in ("%s.id" % du.params[0], "%s._id" % du.params[0]) for k in e.keys))
+    rep.check(len(cs) == 1 and len(cs[0].args) == 2 and unparse(cs[0].args[0]) == du.params[0] and _seed_map(cs[0].args[1]), "ACC-1",
               "document_unique_ids starts the traversal with a map holding the document id", "ok",
               "document_unique_ids does not call section_unique_ids(doc, id_map)", du.where)
